@@ -32,8 +32,9 @@ def reject_case(draw):
     n = int(np.prod(shape))
     wkind = draw(st.sampled_from(['invvar', 'sigma-array', 'sigma-scalar']))
     lims = draw(st.sampled_from([['lower', 'upper'], ['upper'], ['lower'], ['maxdev'], ['lower', 'upper', 'maxdev'], []]))
-    lower = 2 + 3 * 0.5 * (1 + draw(uf))
-    upper = 2 + 3 * 0.5 * (1 + draw(uf))
+    # a limit of exactly 0 is legal: everything on that side of the model is beyond it
+    lower = draw(st.one_of(st.sampled_from([0, 0.0]), uf.map(lambda v: 2 + 3 * 0.5 * (1 + v)), uf.map(lambda v: 2 + 3 * 0.5 * (1 + v)), uf.map(lambda v: 2 + 3 * 0.5 * (1 + v))))
+    upper = draw(st.one_of(st.sampled_from([0, 0.0]), uf.map(lambda v: 2 + 3 * 0.5 * (1 + v)), uf.map(lambda v: 2 + 3 * 0.5 * (1 + v)), uf.map(lambda v: 2 + 3 * 0.5 * (1 + v))))
     maxdev = 10 ** draw(st.sampled_from([0.0, 1.0, -1.0]))
     # per point: which way it deviates and by which factor of the relevant limit
     dev = [draw(st.sampled_from(['in', 'in', 'in', 'in', 'hi', 'lo', 'edge-hi-in', 'edge-hi-out', 'edge-lo-in', 'edge-lo-out'])) for _ in range(n)]
@@ -94,14 +95,14 @@ def reject_body(case):
         elif d in ('hi', 'edge-hi-out', 'edge-hi-in'):
             fac = {'hi': 1.5 + 3 * f, 'edge-hi-out': 1 + 1e-3 + 1e-2 * f, 'edge-hi-in': 1 - 1e-3 - 1e-2 * f}[d]
             if np.isfinite(up_lim):
-                diff[i] = fac * up_lim
+                diff[i] = fac * up_lim if up_lim > 0 else ((0.01 + f) * s if fac > 1 else 0.0)
                 bad[i] = fac > 1
             else:
                 diff[i] = 4 * s * f
         else:
             fac = {'lo': 1.5 + 3 * f, 'edge-lo-out': 1 + 1e-3 + 1e-2 * f, 'edge-lo-in': 1 - 1e-3 - 1e-2 * f}[d]
             if np.isfinite(lo_lim):
-                diff[i] = -fac * lo_lim
+                diff[i] = -fac * lo_lim if lo_lim > 0 else (-(0.01 + f) * s if fac > 1 else 0.0)
                 bad[i] = fac > 1
             else:
                 diff[i] = -4 * s * f
@@ -161,7 +162,7 @@ def reject_body(case):
 
 
 def reject_classify(case):
-    return ['grow:%d' % case['grow'], 'w:' + case['wkind'], 'lims:' + '+'.join(case['lims'] or ['none']), 'sticky' if case['sticky'] else 'not-sticky',
+    return ['grow:%d' % case['grow'], 'w:' + case['wkind'], 'zero-limit' if (case['lower'] == 0 and 'lower' in case['lims']) or (case['upper'] == 0 and 'upper' in case['lims']) else 'positive-limits', 'lims:' + '+'.join(case['lims'] or ['none']), 'sticky' if case['sticky'] else 'not-sticky',
             '%dd' % len(case['shape'])]
 
 
@@ -284,7 +285,7 @@ def interp_classify(case):
 @st.composite
 def aes_case(draw):
     n = draw(st.integers(3, 60))
-    return dict(flux=[10 * draw(uf) for _ in range(n)], zero=[draw(st.integers(0, 3)) == 0 for _ in range(n)], method=draw(st.sampled_from(['traditional', 'noconst', 'mean', 'nothing'])),
+    return dict(flux=[10 * draw(uf) for _ in range(n)], zero=[draw(st.integers(0, 3)) == 0 for _ in range(n)], method=draw(st.sampled_from(['traditional', 'noconst', 'mean', 'nothing'])), tiny=draw(st.sampled_from([1e-10, 2.0, 1e-30, 5e-9])),
                 allzero=draw(st.integers(0, 12)) == 0)
 
 
@@ -292,6 +293,7 @@ def aes_body(case):
     from pydl.pydlspec2d.spec2d import aesthetics
     f = np.array(case['flux'], dtype='f8')
     iv = np.where(np.array(case['zero']), 0.0, 2.0)
+    iv[1::3] = np.where(iv[1::3] > 0, case.get('tiny', 2.0), 0.0)       # some good pixels carry a tiny but non-zero inverse variance
     if case['allzero']:
         iv[:] = 0
     keep = f.copy()
